@@ -24,6 +24,7 @@ vars == <<l, h>>
 
 NoReq == 0
 H0 == [cfg |-> [cap |-> FALSE, maxIdle |-> 0, idleTimeout |-> 0], uris |-> <<>>, run |-> 0, base |-> 0,
+       alive |-> TRUE,       \* the pool has not been dropped (DropPool)
        issueAt |-> <<>>,     \* [request -> index of its Issue record]
        tickAtIssue |-> <<>>, \* [request -> clock at Issue]
        hadIdle |-> <<>>,     \* [request -> a usable idle connection for its origin was pooled when it was issued]
@@ -113,16 +114,16 @@ C03(hh, pre, e, post) ==
 StartsDial(e) == (e.e = "Poll" /\ e.res = "DialStart") \/ (e.e = "Bg" /\ e.d # 0)
 C04(hh, pre, e, post) ==
   (IF StartsDial(e) /\ Get(hh.hadIdle, e.r, FALSE) THEN <<V("C04:dial-despite-idle", e.r, e.d)>> ELSE <<>>)
-  \o (IF /\ StartsDial(e) /\ e.r \in 1..NReqO(post) /\ post.req[e.r].h2
+  \o (IF /\ hh.alive /\ StartsDial(e) /\ e.r \in 1..NReqO(post) /\ post.req[e.r].h2
          /\ \E q \in hh.att \ {e.r} : q \in 1..NReqO(post) /\ SameOrigin(hh, post.req[q].o, post.req[e.r].o)
       THEN <<V("C04:h2-dial-while-attempt-in-flight", e.r, e.d)>> ELSE <<>>)
   \o (IF StartsDial(e) /\ e.r \in 1..NReqO(post) /\ post.req[e.r].h2 /\ Get(hh.openH2, e.r, FALSE)
       THEN <<V("C04:h2-dial-while-open-h2-pooled", e.r, e.d)>> ELSE <<>>)
-  \o (IF /\ e.e = "WhenReady" /\ IsUsable(pre, e.c) /\ ~pre.conn[e.c].h2 /\ pre.conn[e.c].live > 0
+  \o (IF /\ hh.alive /\ e.e = "WhenReady" /\ IsUsable(pre, e.c) /\ ~pre.conn[e.c].h2 /\ pre.conn[e.c].live > 0
          /\ (IdleLen(hh, pre, pre.conn[e.c].o) < hh.cfg.maxIdle \/ LiveWaiter(hh, pre, pre.conn[e.c].o))
          /\ post.conn[e.c].live = 0
       THEN <<V("C04:released-connection-not-kept", 0, e.c)>> ELSE <<>>)
-  \o (IF /\ e.e = "Cancel" /\ e.stage = "checkout"
+  \o (IF /\ hh.alive /\ e.e = "Cancel" /\ e.stage = "checkout"
          /\ Get(hh.reserved, e.r, 0) # 0
          /\ IsUsable(pre, Get(hh.reserved, e.r, 0))
          /\ post.conn[Get(hh.reserved, e.r, 0)].live = 0
@@ -152,12 +153,12 @@ C14(hh, pre, e, post) ==
   (IF /\ e.e = "Poll" /\ (e.res = "DialStart" \/ (e.res = "PollPending" /\ Get(hh.dialed, e.r, FALSE)))
       /\ ReuseAsserted(hh) /\ e.r \in 1..NReqO(post) /\ UsableIdle(hh, pre, post.req[e.r].o)
    THEN <<V("C14:pending-while-usable-idle", e.r, 0)>> ELSE <<>>)
-  \o (IF /\ e.e = "WhenReady" /\ IsUsable(pre, e.c) /\ ~pre.conn[e.c].h2 /\ pre.conn[e.c].live > 0
+  \o (IF /\ hh.alive /\ e.e = "WhenReady" /\ IsUsable(pre, e.c) /\ ~pre.conn[e.c].h2 /\ pre.conn[e.c].live > 0
          /\ LiveWaiter(hh, pre, pre.conn[e.c].o) /\ post.conn[e.c].live = 0
       THEN <<V("C14:released-connection-not-delivered-to-waiter", 0, e.c)>> ELSE <<>>)
   \o (IF e.e = "Drain" /\ hh.cfg.cap /\ \E d \in hh.aband : post.conn[d].dial = "dropped"
       THEN <<V("C14:abandoned-attempt-dropped-with-cap", 0, CHOOSE d \in hh.aband : post.conn[d].dial = "dropped")>> ELSE <<>>)
-  \o (IF /\ e.e = "Bg" /\ e.d = 0 /\ hh.cfg.cap
+  \o (IF /\ hh.alive /\ e.e = "Bg" /\ e.d = 0 /\ hh.cfg.cap
          \* the background continuation of an abandoned attempt finished in this step: its connection must now be
          \* held by somebody (the pool, a waiter, or a WhenReady task on its way to the pool) unless there was
          \* neither room in the idle list nor a live waiter at that moment
@@ -223,6 +224,7 @@ Upd(hh, pre, e, post) ==
                     !.aband = IF e.d # 0 THEN @ \cup {e.d} ELSE @,
                     !.att = IF e.d = 0 THEN @ \ {e.r} ELSE @]
     [] e.e = "PeerClose" -> [hh EXCEPT !.closedAt = Put(@, e.c, l + 1, 0)]
+    [] e.e = "DropPool" -> [hh EXCEPT !.alive = FALSE, !.att = {}]
     [] e.e = "WhenReady" -> [hh EXCEPT !.backAt = Put(@, e.c, l + 1, 0), !.tickAtBack = Put(@, e.c, pre.ticks, 0)]
     [] OTHER -> hh
 
